@@ -18,13 +18,16 @@ pub(crate) static mut CL: CallLog = CallLog { n: 0, kind: [0; LOGN], arg: [0; LO
 fn log(kind: u8, arg: u64) { unsafe { if CL.n < LOGN { CL.kind[CL.n] = kind; CL.arg[CL.n] = arg; CL.n += 1; } } }
 fn fault() -> bool { unsafe { CL.faults && tape::stub_u8() & 3 == 0 } }
 
-pub(crate) struct ARadio { lead: u32 }
+pub(crate) struct ARadio { lead: u32, buffer: u32 }
 #[derive(Debug)] pub(crate) struct AErr;
 impl radio::PhyRxTx for ARadio {
     type PhyError = AErr;
     const MAX_RADIO_POWER: u8 = 14;
     fn tx(&mut self, _config: radio::TxConfig, _buf: &[u8]) -> Result<u32, AErr> { unsafe { CL.tx_calls += 1; } log(1, 0); if fault() { Err(AErr) } else { Ok(tape::stub_u8() as u32) } }
-    fn setup_rx(&mut self, config: radio::RxConfig) -> Result<(), AErr> { log(2, config.rf.frequency as u64); if fault() { Err(AErr) } else { Ok(()) } }
+    fn setup_rx(&mut self, config: radio::RxConfig) -> Result<(), AErr> {
+        // argument logged: RX frequency in the low half, the extra listening time handed to the radio (Single{ms}) in the high half
+        let ms = match config.mode { radio::RxMode::Single { ms } => ms as u64, radio::RxMode::Continuous => 0xffff_ffff };
+        log(2, config.rf.frequency as u64 | ms << 32); if fault() { Err(AErr) } else { Ok(()) } }
     fn rx_continuous(&mut self, _rx_buf: &mut [u8]) -> Result<(usize, radio::RxQuality), AErr> { Err(AErr) }
     fn rx_single(&mut self, _buf: &mut [u8]) -> Result<radio::RxStatus, AErr> {
         log(3, 0);
@@ -33,7 +36,11 @@ impl radio::PhyRxTx for ARadio {
     }
     fn low_power(&mut self) -> Result<(), AErr> { log(4, 0); if fault() { Err(AErr) } else { Ok(()) } }
 }
-impl Timings for ARadio { fn get_rx_window_lead_time_ms(&self) -> u32 { self.lead } }
+// a board may declare a listen buffer shorter than its lead time (trait doc: buffer < lead time); the two are independent inputs
+impl Timings for ARadio {
+    fn get_rx_window_lead_time_ms(&self) -> u32 { self.lead }
+    fn get_rx_window_buffer(&self) -> u32 { self.buffer }
+}
 pub(crate) struct ATimer;
 impl radio::Timer for ATimer {
     fn reset(&mut self) { log(6, 0); }
@@ -42,6 +49,8 @@ impl radio::Timer for ATimer {
 }
 
 fn device(lead: u32) -> Device<ARadio, ATimer, TapeRng, 64, 1> {
+    let buffer = tape::below(200) as u32;
+    kani::assume(buffer <= lead);
     let mut mac = Mac::new(region::Configuration::new(Region::EU868), 14, 0);
     mac.join_abp(crate::NwkSKey::from([1; 16]), crate::AppSKey::from([2; 16]), crate::DevAddr::from_value(5));
     mac.configuration.rx1_delay = 1000 * (1 + tape::below(15) as u32);
@@ -52,7 +61,7 @@ fn device(lead: u32) -> Device<ARadio, ATimer, TapeRng, 64, 1> {
     mac.set_session(s);
     let mut downlink: Vec<Downlink, 1> = Vec::new();
     if tape::boolean() { let _ = downlink.push(Downlink { data: Vec::new(), fport: tape::u8() }); }
-    Device { radio: ARadio { lead }, rng: TapeRng { draws: 0, free: 0, accept: 0 }, timer: ATimer, mac, radio_buffer: RadioBuffer::new(), downlink }
+    Device { radio: ARadio { lead, buffer }, rng: TapeRng { draws: 0, free: 0, accept: 0 }, timer: ATimer, mac, radio_buffer: RadioBuffer::new(), downlink }
 }
 
 /// C06 under radio faults: a radio error after the uplink was handed to the radio must not skip the step that retires FCntUp (KF-C06-1, fixed)
@@ -84,6 +93,7 @@ fn rx_downlink_timing(stray: bool) {
     let w = mac::RxWindows { rx1: RfConfig { frequency: 1, bb: lora_modulation::BaseBandModulationParams::new(lora_modulation::SpreadingFactor::_7, lora_modulation::Bandwidth::_125KHz, lora_modulation::CodingRate::_4_5), max_payload_len: 59 }, rx2: RfConfig { frequency: 2, bb: lora_modulation::BaseBandModulationParams::new(lora_modulation::SpreadingFactor::_7, lora_modulation::Bandwidth::_125KHz, lora_modulation::CodingRate::_4_5), max_payload_len: 59 } };
     let d1 = d.mac.get_rx_delay(&frame, &Window::_1);
     let d2 = d.mac.get_rx_delay(&frame, &Window::_2);
+    let buffer = d.radio.buffer as u64;
     let r = d.rx_downlink(&frame, wd, &w);
     let cl = unsafe { &*(&raw const CL) };
     let ml = unsafe { &*(&raw const ML) };
@@ -93,9 +103,9 @@ fn rx_downlink_timing(stray: bool) {
         // low_power, at(RX1), setup_rx(rx1), rx_single, low_power, low_power, at(RX2), setup_rx(rx2), rx_single, low_power
         assert!(cl.n == 10, "C07/C10 the receive procedure issues the same radio/timer calls whether stray frames arrived or not");
         assert!(cl.kind[0] == 4 && cl.kind[1] == 5 && cl.arg[1] == (d1 + wd - lead) as u64, "C10 RX1 armed at end of TX + RX1 delay (join: 5 s), less the board's lead time");
-        assert!(cl.kind[2] == 2 && cl.arg[2] == 1 && cl.kind[3] == 3 && cl.kind[4] == 4, "C10 RX1 uses the RX1 window bound at TX time");
-        assert!(cl.kind[5] == 4 && cl.kind[6] == 5 && cl.arg[6] == (d2 + wd - lead) as u64 && d2 == d1 + 1000, "C10 RX2 armed one second after RX1");
-        assert!(cl.kind[7] == 2 && cl.arg[7] == 2 && cl.kind[8] == 3 && cl.kind[9] == 4, "C10 RX2 uses the RX2 window bound at TX time");
+        assert!(cl.kind[2] == 2 && cl.arg[2] == (1 | buffer << 32) && cl.kind[3] == 3 && cl.kind[4] == 4, "C10 RX1 uses the RX1 window bound at TX time");
+        assert!(cl.kind[5] == 4 && cl.kind[6] == 5 && cl.arg[6] == (d2 + wd - lead) as u64 && d2 == d1 + 1000, "C10 RX2 armed one second after RX1, adjusted by the same declared lead time and nothing else");
+        assert!(cl.kind[7] == 2 && cl.arg[7] == (2 | buffer << 32) && cl.kind[8] == 3 && cl.kind[9] == 4, "C10 RX2 uses the RX2 window bound at TX time");
         assert!(ml.rx2_complete == 1, "C06 the procedure ends with rx2_complete");
     }
     kani::cover!(ml.handle_rx > 0 && ml.resp == 0, "verif-maybe: stray frame seen");
@@ -118,7 +128,7 @@ fn c06_async_send_no_faults() { send_contract(false) }
 #[kani::stub(crate::mac::Mac::rx2_complete, stub_mac_rx2_complete)]
 #[kani::unwind(66)]
 fn c06_async_send_kf1_witness() { send_contract(true) }
-// @verif props=C10,C07,C06 obligation=async_device::Device::rx_downlink.programme[time-outs] label=proved-complete tier=quick bound="sequential executions (Y1), both windows time out; any RX delay 1..15 s, lead time 0..199 ms"
+// @verif props=C10,C07,C06 obligation=async_device::Device::rx_downlink.programme[time-outs] label=proved-complete tier=quick bound="sequential executions (Y1), both windows time out; any RX delay 1..15 s, lead time 0..199 ms, listen buffer 0..lead time (independent)"
 #[kani::proof]
 #[kani::stub(crate::mac::Mac::send, stub_mac_send)]
 #[kani::stub(crate::mac::Mac::join_otaa, stub_mac_join)]
